@@ -209,9 +209,10 @@ def parserStep (l : String) (ws : List String) : Option (List String) :=
     match unhexText h with
     | none => some [l, "= bad-request"]
     | some cs =>
+      -- the model is a total function: it answers every text (second line: no panic expected)
       match parse cs with
-      | some st => some [l, "= " ++ renderState st]
-      | none => some [l, "= error"]
+      | some st => some [l, "= " ++ renderState st, "~ nopanic"]
+      | none => some [l, "= error", "~ nopanic"]
   | ["parsecheck", h, t] =>
     match unhexText h, readTruth t with
     | some _, some none => some [l, "~ error"]
